@@ -2,3 +2,5 @@ pub mod wire_eng;
 pub mod transport_eng;
 #[cfg(not(feature = "asyncio"))]
 pub mod vfs_eng;
+#[cfg(not(feature = "asyncio"))]
+pub mod ptfs_eng;
